@@ -261,14 +261,20 @@ void Server::Private::run()
         _queuedTimers.insert(now + 300 * 1000, 0); // keep "default timeout" timer
     }
 
-    while (!_closingClients.isEmpty())
+    if (!_closingClients.isEmpty())
     {
-      ClientImpl &client = *_closingClients.front();
-      _closingClients.removeFront();
-      if (client._callback)
-        client._callback->onClosed();
-      else
-        deleteClient(client);
+      do
+      {
+        ClientImpl &client = *_closingClients.front();
+        _closingClients.removeFront();
+        if (client._callback)
+          client._callback->onClosed();
+        else
+          deleteClient(client);
+      } while (!_closingClients.isEmpty());
+      timeout = _queuedTimers.begin().key() - Time::ticks(); // the callbacks may have added timers
+      if (timeout < 0)
+        timeout = 0;
     }
 
     if (!_sockets.poll(pollEvent, timeout))
